@@ -24,6 +24,7 @@ EXPLANATION = (
     "(copy/atleast_2d/indexing only, no float cast) truncates integer spellings. R4 inputs pass np.atleast_2d before the validating "
     "comparisons. R5 the constructor cannot reach the target (call graph), with the positive control that optimize() can. R6 omitted "
     "plausible bounds default to copies of the hard bounds. Decides the structure of the validator; rounding-distance cells are numeric."
+    " The dtype dataflow follows numpy's type promotion through array helpers (broadcast_to, take, ...)."
 )
 
 ROLES5 = ["x0", "lb", "ub", "plb", "pub"]
